@@ -1,3 +1,57 @@
 package main
 
-func cmdReplay(a []string) int { return 0 }
+import (
+	"fmt"
+	"os"
+	"strings"
+)
+
+// cmdReplay re-runs the SMT query stored in a replay file (written by `check` for every
+// reported violation) on the whole solver portfolio and prints each solver's verdict: the
+// failed obligation is reproduced independently of the VC generator. When a solver answers
+// `sat` its model (the values of the function's inputs and intermediate SSA values that violate
+// the clause) is printed; turning that model into a Go test on the real function is not
+// implemented for this revision, which is why violations carry `no-failing-input-found`.
+func cmdReplay(args []string) int {
+	if len(args) < 1 {
+		usage()
+	}
+	b, err := os.ReadFile(args[0])
+	if err != nil {
+		fmt.Fprintln(os.Stderr, err)
+		return 2
+	}
+	text := string(b)
+	head := text
+	script := ""
+	if i := strings.Index(text, "SMT-LIB query:\n"); i >= 0 {
+		head = text[:i]
+		script = text[i+len("SMT-LIB query:\n"):]
+	}
+	for _, l := range strings.Split(head, "\n") {
+		if strings.HasPrefix(l, "property:") || strings.HasPrefix(l, "failed obligation:") || strings.HasPrefix(l, "reason:") || strings.HasPrefix(l, "clause:") {
+			fmt.Println(l)
+		}
+	}
+	if strings.TrimSpace(script) == "" {
+		fmt.Println("no SMT query in this replay file (the function could not be translated)")
+		return 1
+	}
+	_, all := solveOne(script, 30, true)
+	failed := true
+	for _, o := range all {
+		fmt.Printf("solver %-18s %-8s %6d ms\n", o.solver, o.result, o.ms)
+		if o.result == "unsat" {
+			failed = false
+		}
+		if o.result == "sat" {
+			fmt.Println(truncate(o.output, 4000))
+		}
+	}
+	if failed {
+		fmt.Println("REPRODUCED: no solver discharges the obligation")
+		return 1
+	}
+	fmt.Println("NOT REPRODUCED: a solver discharges the obligation on this run")
+	return 0
+}
